@@ -9,46 +9,34 @@ macro "tso_go" : tactic => `(tactic| (
   all_goals (try simp at hs)
   all_goals (try subst hs)))
 
-set_option maxHeartbeats 4000000 in
 theorem o_pu0 (s s' : St) (e) : Inv s → s.opc = .pu0 e → stepO s = some s' → Inv s' := by
   intro h heq hs
   have hv := carry_viewTop _ _ _ _ _ (h.carryC (by simp [heq, carry]))
-  cases h
   simp only [stepO, heq, hv] at hs
   simp at hs; subst hs
-  simp only [heq, ownerLocked, carry, resetting, ownerFlight] at *
-  tso_finish
+  tso_fastO h heq [carryC]
 
-set_option maxHeartbeats 4000000 in
 theorem o_pu0f (s s' : St) (e t) : Inv s → s.opc = .pu0f e t → stepO s = some s' → Inv s' := by
   intro h heq hs
   have hcfg := h.cfg
-  cases h
   simp only [stepO, heq, fenceOk, hcfg, code_pushRb] at hs
   split at hs
   · rename_i hb
     simp at hb
     split at hs
     all_goals (simp at hs; subst hs)
-    all_goals simp only [heq, ownerLocked, carry, resetting, ownerFlight] at *
-    all_goals tso_finish
+    all_goals tso_fastO h heq [pu0f, carryC]
   · simp at hs
 
-set_option maxHeartbeats 4000000 in
 theorem o_pu2 (s s' : St) (e t) : Inv s → s.opc = .pu2 e t → stepO s = some s' → Inv s' := by
   intro h heq hs
-  cases h
   simp only [stepO, heq] at hs
   simp at hs; subst hs
-  simp only [heq, ownerLocked, carry, resetting, ownerFlight] at *
-  tso_finish
-set_option maxHeartbeats 4000000 in
+  tso_fastO h heq [pu2]
 theorem o_pu1 (s s' : St) (e t) : Inv s → s.opc = .pu1 e t → stepO s = some s' → Inv s' := by
   intro h heq hs
-  cases h
   simp only [stepO, heq] at hs
   simp at hs; subst hs
-  simp only [heq, ownerLocked, carry, resetting, ownerFlight] at *
-  tso_finish
+  tso_fastO h heq [pu1]
 
 end MythVerif.WsqTso
